@@ -8,7 +8,7 @@ Set Warnings "-notation-overridden,-ambiguous-paths".
 From mathcomp Require Import all_ssreflect all_algebra all_real_closed.
 From mathcomp Require Import ssrZ.
 Set Warnings "notation-overridden,ambiguous-paths".
-From LP Require Import UPolySpec RefAlgSpec RefAlgLoops RefAlgOps.
+From LP Require Import UPolySpec RefAlgSpec RefAlgLoops RefAlgOps RefAlgValid RefAlgCmp.
 Import GRing.Theory Num.Theory.
 Local Open Scope ring_scope.
 
@@ -96,3 +96,36 @@ Print Assumptions Base_rn_is_integer.
 Theorem Base_rn_neg : forall (R : rcfType) (x : rnum) (v : R), rn_denotes x v -> rn_denotes (rn_neg x) (- v).
 Proof. exact: rn_neg_spec. Qed.
 Print Assumptions Base_rn_neg.
+
+(* ---- validity and comparison of reference numbers, unconditionally (interval Sturm count: SturmItv.v; gcd, square-free
+   part: GcdSpec.v, RefAlgValid.v) *)
+
+(* every representation accepted by rn_valid (checked on everything read from the implementation) denotes a real number *)
+Theorem Base_rn_valid_denotes : forall (R : rcfType) (x : rnum),
+  rn_valid x = true -> exists v : R, rn_denotes (rn_norm x) v.
+Proof. exact: rn_valid_denotes. Qed.
+Print Assumptions Base_rn_valid_denotes.
+
+(* the equality test (gcd has a root in the intersection of the isolating intervals) is sound *)
+Theorem Base_rn_eqb_sound : forall (R : rcfType) (x y : rnum) (a b : R),
+  rn_denotes x a -> rn_denotes y b -> rn_eqb x y = true -> a = b.
+Proof. exact: rn_eqb_sound. Qed.
+Print Assumptions Base_rn_eqb_sound.
+
+(* FULL: whenever the reference comparison answers, the answer is the sign of a - b *)
+Theorem Base_rn_cmp : forall (R : rcfType) (fuel : nat) (x y : rnum) (a b : R) (s : Z),
+  rn_denotes x a -> rn_denotes y b -> rn_cmp fuel x y = Some s -> zr s = Num.sg (a - b).
+Proof. exact: rn_cmp_spec. Qed.
+Print Assumptions Base_rn_cmp.
+
+(* extended values *)
+Theorem Base_xv_cmp : forall (R : rcfType) (fuel : nat) (u v : xval) (a b : R) (s : Z),
+  xv_denotes u a -> xv_denotes v b -> xv_cmp fuel u v = Some s ->
+  match u, v with
+  | XFin _, XFin _ => zr s = Num.sg (a - b)
+  | XMinf, XMinf | XPinf, XPinf => s = Z0
+  | XMinf, _ | _, XPinf => s = Zneg xH
+  | _, _ => s = Zpos xH
+  end.
+Proof. exact: xv_cmp_spec. Qed.
+Print Assumptions Base_xv_cmp.
